@@ -2,6 +2,7 @@ package main
 
 import (
 	"bytes"
+	"go/types"
 	"context"
 	"fmt"
 	"os"
@@ -14,7 +15,12 @@ import (
 	"time"
 )
 
-const preamble = `(define-fun streq ((a1 (Array Int Int)) (o1 Int) (n1 Int) (a2 (Array Int Int)) (o2 Int) (n2 Int)) Bool
+const preamble = `(declare-fun strkey ((Array Int Int) Int Int) Int)
+(declare-fun sub (Int Int) Int)
+(declare-fun subBase (Int) Int)
+(declare-fun subIdx (Int) Int)
+(assert (forall ((r Int) (k Int)) (! (and (= (subBase (sub r k)) r) (= (subIdx (sub r k)) k) (< (sub r k) 0)) :pattern ((sub r k)))))
+(define-fun streq ((a1 (Array Int Int)) (o1 Int) (n1 Int) (a2 (Array Int Int)) (o2 Int) (n2 Int)) Bool
   (and (= n1 n2) (forall ((i Int)) (=> (and (<= 0 i) (< i n1)) (= (select a1 (+ o1 i)) (select a2 (+ o2 i)))))))
 `
 
@@ -205,9 +211,14 @@ func (e *Enc) queries(extraAxioms string) []*Obligation {
 	// declarations first (all of them: later declarations are harmless)
 	for _, it := range e.items {
 		if it.Kind == IDecl {
-			fmt.Fprintf(&decls, "(declare-const %s %s)\n", it.Name, it.Term)
+			if it.Class == "fun" {
+				fmt.Fprintf(&decls, "(declare-fun %s %s)\n", it.Name, it.Term)
+			} else {
+				fmt.Fprintf(&decls, "(declare-const %s %s)\n", it.Name, it.Term)
+			}
 		}
 	}
+	extraAxioms += e.strKeyAxioms() + e.implAxioms()
 	// input values to report from models
 	var values []string
 	for _, p := range e.fn.Params {
@@ -266,7 +277,16 @@ func (e *Enc) queries(extraAxioms string) []*Obligation {
 				p := e.W.Fset.Position(it.Pos)
 				w = fmt.Sprintf("%s:%d", shortFile(p.Filename), p.Line)
 			}
-			out = append(out, &Obligation{Name: it.Name, Class: it.Class, Src: it.Src, Where: w, Canary: it.Canary, SMT: q, SMTLean: lean, Values: values, HasRec: hasRec, Func: e.key})
+			canary := it.Canary
+			if canary && e.spec != nil {
+				for _, d := range e.spec.Dead {
+					if strings.HasSuffix(it.Name, "#canary."+d) {
+						canary = false // declared dead code: unreachability is a proof obligation
+						it.Class = "dead"
+					}
+				}
+			}
+			out = append(out, &Obligation{Name: it.Name, Class: it.Class, Src: it.Src, Where: w, Canary: canary, SMT: q, SMTLean: lean, Values: values, HasRec: hasRec, Func: e.key})
 			if !it.Canary {
 				// later obligations may assume this one (well-founded: program order)
 				addFact(imp(it.Guard, it.Term))
@@ -469,4 +489,25 @@ func solveAll(obs []*Obligation, dir string, secs int, all bool, par int) {
 		}()
 	}
 	wg.Wait()
+}
+
+// implAxioms: which registered concrete types implement the interfaces tested by type assertions.
+func (e *Enc) implAxioms() string {
+	var b strings.Builder
+	var names []string
+	for n := range e.implUsed {
+		names = append(names, n)
+	}
+	sort.Strings(names)
+	for _, n := range names {
+		it := e.implUsed[n].Underlying().(*types.Interface)
+		for id, t := range typeTagTypes {
+			if types.Implements(t, it) {
+				fmt.Fprintf(&b, "(assert (%s %d))\n", n, id)
+			} else {
+				fmt.Fprintf(&b, "(assert (not (%s %d)))\n", n, id)
+			}
+		}
+	}
+	return b.String()
 }
